@@ -258,6 +258,7 @@ def main():
         print('unknown or unclaimed property %r; claimed: %s' % (pid, ' '.join(sorted(registry.PROPS))))
         return 2
     if args.replay:
+        os.environ['VERIF_PID'] = pid
         return registry.replay(pid, args.replay, WORK)
 
     t0 = time.time()
